@@ -802,7 +802,7 @@ func TestVerifC07(t *testing.T) {
 			plans = append(plans, q)
 		}
 		for _, a := range []string{"error-full", "error-bare", "error-echo", "result-payload", "result-no-from", "result-from-other-form"} {
-			if p.reqs == 2 && !hx.Thorough() && a != "error-bare" && a != "result-no-from" {
+			if p.reqs == 2 && a != "error-bare" && a != "result-no-from" { // (both tiers: the two-caller plans are the expensive ones)
 				continue
 			}
 			q := p
